@@ -27,10 +27,13 @@ THEOREMS = [
     'CC.C11_lyapunov',
     'CC.C11_energy_rate',
     'CC.C11_eig',
+    'CC.C11_structure',
+    'CC.C11_model_lyapunov',
+    'CC.C11_model_eig',
 ]
-OPEN_STATEMENTS = ['CC.C11_structure_statement']
+OPEN_STATEMENTS = []
 ASSUMPTIONS = [
-    'C11_lyapunov is proved from the block structure of the nodal matrix (signature identity Jn·DQ = −DQ·J and a non-negative resistive form); that the model\'s matrices have this structure for every RLC network is the open statement C11_structure_statement, covered on every run by the exact definiteness oracle',
+    'C11_model_lyapunov / C11_model_eig are proved for the executable model (every RLC network without negative conductances, any certificates); the exact definiteness oracle checks the same inequality on the implementation\'s A on every run; the energy-flow clause along exp(tA) is formalised only in rate form',
     'scipy.signal.lsim reproduces exp(A·Δt) (sampled-energy clause only)',
     'binary64 rounding of A enters the exact evaluation of W·A + Aᵀ·W; a tolerance of 1e-9·max|P| absorbs it on the well-conditioned instances generated',
 ]
